@@ -17,7 +17,7 @@ CLAIMED = {
    text="Seeded search over interleavings of the emitting thread, the real scheduler worker(s) and an optional unsubscribing thread, for scripted sources (cold or on their own thread) through observe_on / subscribe_on at any position of a short pipeline and stacked twice, subscribed once or twice. Oracle: recorded events equal the script (prefix under unsubscribe), callbacks on one worker thread that is not the emitter, never overlapping, nothing whose emission started after unsubscribe returned; subscribe_on subscribes the source on a worker. Further sources: a real Subject with a re-entrant subscriber (the callback feeds the source from the worker), two emitter threads merged in front of the pipeline, and a long backlog (1100 events pushed while the subscriber is stuck in its first callback).",
    technique='deterministic simulation: seeded scheduling of source/worker/unsubscriber threads + spurious wake-ups, history equality oracle'),
  'C18': dict(level='exploration', design='5.18',
-   text="Seeded search over interleavings of Future::poll (driven by a minimal executor on the simulated Mutex/Condvar, with eager re-polls and injected spurious wake-ups) with a source emitting on another thread. Oracle: Ready never before the source's terminal call started, never Pending for a poll started after it returned, exact items/error payload, and no deadlock (= no lost wake-up). The waker may change between polls, and a clone of the future is polled after the original resolved.",
+   text="Seeded search over interleavings of Future::poll (driven by a minimal executor on the simulated Mutex/Condvar, with eager re-polls and injected spurious wake-ups) with a source emitting on another thread. Oracle: Ready never before the source's terminal call started, never Pending for a poll started after it returned, exact items/error payload, and no deadlock (= no lost wake-up). The waker may change between polls, and a clone of the future is polled after the original resolved. A second source thread may signal an error of its own at a scheduler-chosen point (a watchdog racing the emitter): one terminal wins, the future must resolve with it, nothing is ready before the first terminal call starts and nothing pending once both have returned.",
    technique='deterministic simulation: seeded scheduling incl. scheduling points at lock release, spurious wake-ups; deadlock = lost wake-up'),
  'C11': dict(level='exploration', design='5.11',
    text="Seeded search over interleavings of 2..3 emitting threads (every input of merge / flat_map / zip / concat / amb on its own simulated thread, with and without take(n) downstream) at lock-operation granularity. Oracle: conservation (multiset, per-input order, zip pairing, concat non-interleaving, single amb winner), take never exceeds n, exactly one complete after the last item, never two terminals. flat_map's outer source may be a merge of two producer threads; under take(n) exactly n items are demanded.",
@@ -29,10 +29,10 @@ CLAIMED = {
    text="Seeded search over interleavings of 2..3 threads of which at least one signals a terminal while another emits: inputs of merge / flat_map / zip / amb / concat, source vs trigger of take_until / skip_until / sample, and next || complete/error || error on the four subject types, observers direct and behind an operator, with scheduling points inside the subscriber's callbacks. Oracle: at most one terminal; no delivery whose originating emission started after the terminal callback returned.",
    technique='deterministic simulation: seeded scheduling of racing emitters, contract oracle with logical-clock stamps'),
  'C15': dict(level='exploration', design='5.15',
-   text="A catalogue of every thread-creating construct (interval, timer, observe_on, subscribe_on, debounce, timeout and nestings) crossed with every ending (terminal, unsubscribe at a virtual instant or immediately, take, first, take_until(timer), amb(timer), retry), single and repeated subscriptions, run on the virtual clock under seeded schedules with and without timer jitter. Oracle: at quiescence no worker thread the crate spawned is alive (a worker blocked on its queue is the simulator's 'leak' outcome), and after the end instant each worker begins at most one further sleep and takes a bounded number of own steps. The catalogue also holds cold sources that deliver everything inside subscribe (under debounce / timeout / observe_on / delay / sample) and nestings (switch_on_next, flat_map of observe_on, concat of timers, zip / combine_latest of intervals, retry over a failing observe_on, window + flat_map).",
+   text="A catalogue of every thread-creating construct (interval, timer, observe_on, subscribe_on, debounce, timeout and nestings) crossed with every ending (terminal, unsubscribe at a virtual instant or immediately, take, first, take_until(timer), amb(timer), retry), single and repeated subscriptions, run on the virtual clock under seeded schedules with and without timer jitter. Oracle: at quiescence no worker thread the crate spawned is alive (a worker blocked on its queue is the simulator's 'leak' outcome), and after the end instant each worker begins at most one further sleep and takes a bounded number of own steps. The catalogue also holds cold sources that deliver everything inside subscribe (under debounce / timeout / observe_on / delay / sample) and nestings (switch_on_next, flat_map of observe_on, concat of timers, zip / combine_latest of intervals, retry over a failing observe_on, window + flat_map). Further constructs: a timer with zero duration; Subject-fed debounce / sample / timeout / observe_on whose subscriber, running on the operator's worker, pushes the next item into the subject from inside its callback.",
    technique='deterministic simulation: virtual discrete-event clock, seeded scheduling, timer-jitter and spurious-wake-up faults; task-table oracle at quiescence'),
  'C16': dict(level='exploration', design='5.16',
-   text="Virtual-time runs of interval (new-thread and default scheduler), timer, delay, timeout, sample and debounce over scripted sources with gaps from a tie-free grid, with a slow consumer for timeout and re-subscription for interval/timer. Exact configuration: (virtual instant, event) pairs must equal the closed-form expectation. Jitter configuration (sleeps return up to 30 ms late), reported separately: lower bounds, order, no loss/duplication, and no timeout unless a gap exceeded d. delay is also fed by two producer threads merged into it (per-item latency judged).",
+   text="Virtual-time runs of interval (new-thread and default scheduler), timer, delay, timeout, sample and debounce over scripted sources with gaps from a tie-free grid, with a slow consumer for timeout and re-subscription for interval/timer. Exact configuration: (virtual instant, event) pairs must equal the closed-form expectation. Jitter configuration (sleeps return up to 30 ms late), reported separately: lower bounds, order, no loss/duplication, and no timeout unless a gap exceeded d. delay is also fed by two producer threads merged into it (per-item latency judged). sample and debounce are also run with a slow consumer (virtual time spent inside every item callback, so that a flush at completion or a second tick can overlap a delivery).",
    technique='deterministic simulation: virtual clock + seeded scheduling of timer/source threads; exact and jitter configurations with separate oracles'),
  'C01': dict(level='exploration', design='5.1',
    text="Generated pipelines over every operator of the crate (nested to depth 3 quick / 5 thorough, also the degenerate pipeline with the subscriber directly on the source) over 1..3 hot / cold / subject sources whose scripts carry the protocol-violation fault (events after the terminal, both terminals, repeated terminals, and re-entrant emission from inside the subscriber's callback), stepped in a generated sequential interleaving inside the simulator. Oracle: the contract automaton next* (error|complete)? at the recording subscriber and is_subscribed()==false after the terminal. The two C19 families (a source misbehaving from two threads at once) are run under the same contract.",
@@ -46,19 +46,19 @@ CLAIMED = {
    technique='deterministic simulation (single driver task): terminating cause x position enumeration by generation; is_subscribed probes inside instrumented sources',
    note="The instant an operator has all it needs is observed by a pass-through probe stage written like the crate's own map. Sampling, not enumeration of all pipelines."),
  'C17': dict(level='fault_enumeration', design='5.17',
-   text="Generated pipelines (optionally with observe_on/subscribe_on) over finite sources; a counting token is cloned into the three subscribe callbacks, every operator closure and every item; endings: complete, error, cancel at every position. The harness then drops its Observable, Subscription and source handles and lets workers drain. Oracle: no owner of a token is left. The family also covers the sharing operators ref_count / replay and streams backed by a ReplaySubject.",
+   text="Generated pipelines (optionally with observe_on/subscribe_on) over finite sources; a counting token is cloned into the three subscribe callbacks, every operator closure and every item; endings: complete, error, cancel at every position. The harness then drops its Observable, Subscription and source handles and lets workers drain. Oracle: no owner of a token is left. The family also covers the sharing operators ref_count / replay and streams backed by a ReplaySubject. A quarter of the runs use callbacks that hold a clone of their own Subscription (judged once the caller has unsubscribed, also after a terminal); switch_on_next is among the generated operators.",
    technique='deterministic simulation: ending-cause x position faults; drop-counting token conservation at quiescence',
    note="Only subscriptions that ended are judged. The harness stores token-free copies of recorded items."),
  'C14': dict(level='exploration', design='5.14',
-   text="One generated pipeline value (every operator incl. wrapping in retry) over hot sources with per-subscription scripts, cold sources and creation functions is subscribed 2..3 times: sequentially, interleaved (the second subscription starts while the first is mid-stream), and nested from inside a callback. Self-differential oracle: subscriber k's record equals its record when the same AST is built afresh and subscribed once, driven by the same steps; tap side-effect counters equal the sum of the solo runs. A second family starts a nested subscription from inside the first subscriber's callback while a cold synchronous source is emitting - plain and behind ref_count / replay: the first subscriber is unaffected, the nested call returns, the nested subscriber gets the whole sequence (plain, replay) or the rest of it (ref_count).",
+   text="One generated pipeline value (every operator incl. wrapping in retry) over hot sources with per-subscription scripts, cold sources and creation functions is subscribed 2..3 times: sequentially, interleaved (the second subscription starts while the first is mid-stream), and nested from inside a callback. Self-differential oracle: subscriber k's record equals its record when the same AST is built afresh and subscribed once, driven by the same steps; tap side-effect counters equal the sum of the solo runs. A second family starts a nested subscription from inside the first subscriber's callback while a cold synchronous source is emitting - plain and behind ref_count / replay: the first subscriber is unaffected, the nested call returns, the nested subscriber gets the whole sequence (plain, replay) or the rest of it (ref_count). Time-based operators have their own threaded family (debounce, sample, delay, timeout, observe_on, subscribe_on, interval.take, timer, debounce/observe_on under retry) on the exact virtual clock: after a first, solitary subscription (ended by complete, error or unsubscribe) the same value is subscribed again - once, or twice overlapping - and every later subscription must show the same (event, instant relative to its subscribe) timeline.",
    technique='deterministic simulation (single driver task): interleaved sessions sharing one object, self-differential oracle against fresh solo runs',
    note="No reference semantics are assumed: the reference is the crate itself on a fresh pipeline. Sampling, not enumeration."),
  'C10': dict(level='exploration', design='5.10',
-   text="Generated call histories (length <= 8 quick / 12 thorough) over {subscribe_i, unsubscribe_i, next(v), error, complete} with up to 3 observers (attached directly, through map, through take(1|2)) on each of the four subject types, including misuse (subscribe after a terminal, double unsubscribe, calls after a terminal), with the HashMap iteration order perturbed. Oracle: a reference state machine that reads the statement literally; after the run every observer's record equals the model's and after every step the subject's registered-observer count equals the model's live set. Where the statement is silent only weak invariants are asserted. One observer may be subscribed from inside another one's terminal callback; a second family runs the ReplaySubject hand-over against pushes / a terminal from another thread. The threaded C12 family is run for plain and replay subjects as well (late / leaving / take(1) subscribers concurrent with pushes and a terminal; observer count at quiescence).",
+   text="Generated call histories (length <= 8 quick / 12 thorough) over {subscribe_i, unsubscribe_i, next(v), error, complete} with up to 3 observers (attached directly, through map, through take(1|2)) on each of the four subject types, including misuse (subscribe after a terminal, double unsubscribe, calls after a terminal), with the HashMap iteration order perturbed. Oracle: a reference state machine that reads the statement literally; after the run every observer's record equals the model's and after every step the subject's registered-observer count equals the model's live set. Where the statement is silent only weak invariants are asserted. One observer may be subscribed from inside another one's terminal callback; a second family runs the ReplaySubject hand-over against pushes / a terminal from another thread. The threaded C12 family is run for plain and replay subjects as well (late / leaving / take(1) subscribers concurrent with pushes and a terminal; observer count at quiescence). The threaded subject family also runs AsyncSubject (nothing before the completion, only the last item, handed out inside the producer's complete() call; an observer that left gets nothing).",
    technique='deterministic simulation (single task): generated operation histories incl. misuse + hash-order fault, checked step by step against an executable reference model',
    note="The reference model is ~150 lines in harness/src/c10.rs. Sampling of the history space; a clean batch is evidence, not proof."),
  'C13': dict(level='exploration', design='5.13',
-   text="Sequential family: generated call histories (<= 8 quick / 12 thorough) over {subscribe_i, unsubscribe_i, connect, disconnect, source emits, source terminal} with up to 3 subscribers (direct, map, take(1|2); sharing one Observable value or a fresh observable() each) on publish / ref_count / replay, over a hot instrumented source and over cold sources that emit synchronously inside connect / the first subscribe (incl. a subscriber leaving during the burst). Oracle: reference state machine for deliveries, source-subscription counter and is_subscribed liveness probe after every call (0 before connect, 1 while connected, never 2, 0 after disconnect / last leave, replay = full history once). Threaded family: the first subscribers arrive concurrently and later leave concurrently. Not asserted: reconnection of ref_count after zero, double connect. In the threaded family an emitter thread may go on emitting while some subscribers leave and others stay (stayers see everything, leavers a prefix).",
+   text="Sequential family: generated call histories (<= 8 quick / 12 thorough) over {subscribe_i, unsubscribe_i, connect, disconnect, source emits, source terminal} with up to 3 subscribers (direct, map, take(1|2); sharing one Observable value or a fresh observable() each) on publish / ref_count / replay, over a hot instrumented source and over cold sources that emit synchronously inside connect / the first subscribe (incl. a subscriber leaving during the burst). Oracle: reference state machine for deliveries, source-subscription counter and is_subscribed liveness probe after every call (0 before connect, 1 while connected, never 2, 0 after disconnect / last leave, replay = full history once). Threaded family: the first subscribers arrive concurrently and later leave concurrently. Not asserted: reconnection of ref_count after zero, double connect. In the threaded family an emitter thread may go on emitting while some subscribers leave and others stay (stayers see everything, leavers a prefix). publish may be connected again after its connection was unsubscribed (connect, disconnect, connect over a hot source that has not ended).",
    technique='deterministic simulation: generated operation histories against an executable reference model + seeded interleavings of concurrent first subscribers',
    note="Reference model in harness/src/c13.rs. Sampling of the history space."),
  'C03': dict(level='exploration', design='5.3',
@@ -70,7 +70,7 @@ CLAIMED = {
    technique='deterministic simulation (single driver task): error fault enumerated at every script position, differential + reference-model oracles',
    note="Sampling of pipelines and scripts; inside a case the fault positions are enumerated completely. retry(n) convention as named in the property's anchors."),
  'C07': dict(level='exploration', design='5.7',
-   text="The simulator runtime is the oracle (self-deadlock, deadlock, livelock under a fairness rule, panic). Scenario catalogue: every threaded family of C05, C08, C09, C11, C12, C13, C15, C16, C18, C19 and every single-task family of C01, C03, C04, C05, C06, C10, C13, C14, C17 re-run with only this oracle, both RwLock policies sampled equally and one stalled thread in a fifth of the threaded runs; plus the re-entrant family: for every single-source operator (and ref_count / replay) over each of the four subject types, a subscriber callback (next or terminal) that unsubscribes itself, emits into / completes / fails the subject it is being called from, or subscribes a second observer.",
+   text="The simulator runtime is the oracle (self-deadlock, deadlock, livelock under a fairness rule, panic). Scenario catalogue: every threaded family of C05, C08, C09, C11, C12, C13, C15, C16, C18, C19 and every single-task family of C01, C03, C04, C05, C06, C10, C13, C14, C17 re-run with only this oracle, both RwLock policies sampled equally and one stalled thread in a fifth of the threaded runs; plus the re-entrant family: for every single-source operator (and ref_count / replay) over each of the four subject types, a subscriber callback (next or terminal) that unsubscribes itself, emits into / completes / fails the subject it is being called from, or subscribes a second observer. The re-entrant family re-enters from the subscriber's next / terminal callback, from tap callbacks, from the stage that is handed the inner observables of group_by / window_with_count, and (unsubscribe / subscribe only) from operator closures.",
    technique='deterministic simulation: lock-table runtime detects self-deadlock / deadlock / livelock; seeded scheduling, RwLock-policy and stall faults; re-entrant callbacks',
    note="Trusted base: the lock model of rt/src/exec.rs (writer-preferring = std futex RwLock on Linux: a recursive read behind a queued writer blocks; reader-preferring alternative also sampled). Pipelines that are unbounded by definition (retry(0)/retry_when over an always failing source, endless producers) are not judged for livelock here."),
  # -- more claimed
